@@ -40,11 +40,15 @@ class FnSpec(object):
 
 
 class Translator(object):
-    def __init__(self, fname, consts, spec):
+    def __init__(self, fname, consts, spec, cls=None):
         self.fname = fname
         self.consts = consts  # python name -> lean constant name (type nat)
         self.spec = spec
         self.fresh = 0
+        self.cls = cls  # name of the class whose method is translated (for `super(<cls>, self)`)
+        # called with (name, node) when a BARE name is resolved through `consts` (a module global of the file read):
+        # the caller says where such a name must come from; by default a bare constant name is not accepted
+        self.bare_const = None
 
     # ------------------------------------------------------------------ expressions
     def fail(self, node, why):
@@ -64,6 +68,9 @@ class Translator(object):
             if e.id in env:
                 return env[e.id]
             if e.id in self.consts:
+                if self.bare_const is None:
+                    self.fail(e, "constant used as a bare name")
+                self.bare_const(e.id, e)
                 return (self.consts[e.id], "nat")
             self.fail(e, "unknown name")
         if isinstance(e, ast.Attribute) and isinstance(e.value, ast.Name) and e.value.id in ("self", "cls"):
@@ -114,6 +121,8 @@ class Translator(object):
                 return (self.truthy(e.args[0], env), "bool")
             name = self.callee(e)
             if name is not None and name in self.spec.calls:
+                if e.keywords or any(isinstance(a, ast.Starred) for a in e.args):
+                    self.fail(e, "call with keyword or starred arguments")
                 fn, extra, kind = self.spec.calls[name]
                 args = [self.expr(a, env)[0] for a in e.args]
                 return ("(%s)" % " ".join([fn] + extra + args), kind)
@@ -127,6 +136,12 @@ class Translator(object):
             if isinstance(v, ast.Name) and v.id in ("self", "cls"):
                 return f.attr
             if isinstance(v, ast.Call) and isinstance(v.func, ast.Name) and v.func.id == "super":
+                # super() or super(<this class>, self): any other form starts the lookup somewhere else
+                plain = not v.args and not v.keywords
+                two = (len(v.args) == 2 and not v.keywords and all(isinstance(a, ast.Name) for a in v.args)
+                       and v.args[1].id == "self" and (self.cls is None or v.args[0].id == self.cls))
+                if not (plain or two):
+                    self.fail(e, "super(...) with unexpected arguments")
                 return "super." + f.attr
         return None
 
@@ -211,9 +226,10 @@ class Translator(object):
         if isinstance(s, ast.If):
             # `if x is None: x = e` on an optional int: x becomes an int afterwards
             if (not s.orelse and len(s.body) == 1 and isinstance(s.body[0], ast.Assign)
-                    and isinstance(s.test, ast.Compare) and isinstance(s.test.ops[0], ast.Is)
+                    and isinstance(s.test, ast.Compare) and len(s.test.ops) == 1 and isinstance(s.test.ops[0], ast.Is)
+                    and isinstance(s.test.comparators[0], ast.Constant) and s.test.comparators[0].value is None
                     and isinstance(s.test.left, ast.Name)
-                    and isinstance(s.body[0].targets[0], ast.Name)
+                    and len(s.body[0].targets) == 1 and isinstance(s.body[0].targets[0], ast.Name)
                     and s.body[0].targets[0].id == s.test.left.id
                     and env.get(s.test.left.id, ("", ""))[1] == "optnat"):
                 x = s.test.left.id
@@ -258,7 +274,15 @@ class Translator(object):
         env = {}
         sig = []
         leantype = {"nat": "Nat", "bool": "Bool", "optnat": "Option Nat", "optstr": "Option (List Char)"}
+        a = fn.args
+        if a.vararg or a.kwarg or a.kwonlyargs or a.posonlyargs:
+            raise Untranslatable("%s:%d: %s: parameters outside the translated subset" % (self.fname, fn.lineno, spec.lean_name))
+        have = [x.arg for x in a.args]
+        if not have or have[0] not in ("self", "cls") or len(set(have)) != len(have):
+            raise Untranslatable("%s:%d: %s: not a method" % (self.fname, fn.lineno, spec.lean_name))
         for py, lean, ty in spec.params:
+            if py not in have[1:]:
+                raise Untranslatable("%s:%d: %s: parameter `%s` not found" % (self.fname, fn.lineno, spec.lean_name, py))
             env[py] = (lean, ty)
             sig.append("(%s : %s)" % (lean, leantype[ty]))
         rett = {"bool": "Bool", "nat": "Nat", "except_unit": "Except String Unit",
@@ -269,35 +293,479 @@ class Translator(object):
         return doc + head + "\n" + "\n".join(body) + "\n"
 
 
-def find_function(tree, cls, name, fname):
-    for node in tree.body:
-        if cls is None and isinstance(node, ast.FunctionDef) and node.name == name:
-            return node
-        if isinstance(node, ast.ClassDef) and node.name == cls:
-            for n in node.body:
-                if isinstance(n, ast.FunctionDef) and n.name == name:
-                    return n
-    raise Untranslatable("%s: function %s.%s not found" % (fname, cls, name))
+# ---------------------------------------------------------------------------------------------
+# Strict reading helpers shared by gen_lean.py and the plug-ins under genparts/.
+#
+# Contract of every reader: what it emits is what the code says, or it raises Untranslatable (the part is
+# then filled from tools/gen_frozen and the correspondence run carries the tie).  A reader must therefore
+# account for EVERY statement of what it reads: statements it skips must be provably irrelevant (they do
+# not mention the objects concerned), all others must have exactly the expected shape.
+# ---------------------------------------------------------------------------------------------
+
+PLAIN_DECORATORS = ("property", "staticmethod", "classmethod")
+
+
+def is_doc(st):
+    return isinstance(st, ast.Expr) and isinstance(st.value, ast.Constant) and isinstance(st.value.value, str)
+
+
+def strip_doc(stmts):
+    """the statements without docstrings / bare string expressions (they do nothing)"""
+    return [st for st in stmts if not is_doc(st)]
+
+
+def find_class(tree, cls, fname):
+    """the one class of that name at module level (a second definition or a rebinding would win at run time)"""
+    found = [n for n in tree.body if isinstance(n, ast.ClassDef) and n.name == cls]
+    if not found:
+        raise Untranslatable("%s: class %s not found" % (fname, cls))
+    if len(found) > 1 or _other_bindings(tree.body, cls, found[0]):
+        raise Untranslatable("%s:%d: class %s is bound more than once in the module" % (fname, found[-1].lineno, cls))
+    return found[0]
+
+
+def _other_bindings(body, name, the_one):
+    """is `name` bound in this body (at any nesting depth that shares the scope) by anything but `the_one`?"""
+    def scope_nodes(stmts):
+        for st in stmts:
+            if st is the_one:
+                continue
+            yield st
+            if isinstance(st, (ast.FunctionDef, ast.AsyncFunctionDef, ast.ClassDef, ast.Lambda)):
+                continue  # the name itself binds; the body is another scope
+            for child in ast.iter_child_nodes(st):
+                for n in scope_nodes([child]):
+                    yield n
+    for n in scope_nodes(body):
+        if isinstance(n, (ast.FunctionDef, ast.AsyncFunctionDef, ast.ClassDef)) and n.name == name:
+            return True
+        if isinstance(n, ast.Name) and n.id == name and isinstance(n.ctx, (ast.Store, ast.Del)):
+            return True
+        if isinstance(n, ast.alias) and (n.asname or n.name.split(".")[0]) == name:
+            return True
+        if isinstance(n, ast.alias) and n.name == "*":
+            return True
+        if isinstance(n, ast.ExceptHandler) and n.name == name:
+            return True
+    return False
+
+
+def find_function(tree, cls, name, fname, decorators=PLAIN_DECORATORS):
+    """The one definition of `cls.name` (or of the module-level function `name` when cls is None).
+    Strict: the name is bound exactly once in the class body (Python takes the LAST binding; a second
+    `def`, an assignment `name = wrap(name)` or a conditional redefinition would make what is read here
+    not what runs), and the decorators are among `decorators` (a caching or wrapping decorator changes
+    what a call does without changing the body)."""
+    if cls is None:
+        body, where = tree.body, name
+    else:
+        body, where = find_class(tree, cls, fname).body, "%s.%s" % (cls, name)
+    found = [n for n in body if isinstance(n, ast.FunctionDef) and n.name == name]
+    if not found:
+        raise Untranslatable("%s: function %s not found" % (fname, where))
+    if len(found) > 1 or _other_bindings(body, name, found[0]):
+        raise Untranslatable("%s:%d: %s is bound more than once (the last binding wins at run time)"
+                             % (fname, found[-1].lineno, where))
+    for d in found[0].decorator_list:
+        if not (isinstance(d, ast.Name) and d.id in decorators):
+            raise Untranslatable("%s:%d: %s is wrapped by the decorator `%s`, whose effect is not read"
+                                 % (fname, d.lineno, where, ast.unparse(d)))
+    return found[0]
+
+
+def check_bases(tree, cls, bases, fname):
+    """the class has exactly these base classes (`object` aside), no metaclass or other class keywords, no decorators"""
+    node = find_class(tree, cls, fname)
+    got = [ast.unparse(b) for b in node.bases if ast.unparse(b) != "object"]
+    if got != list(bases) or node.keywords or node.decorator_list:
+        raise Untranslatable("%s:%d: class %s(%s) expected, found bases %s%s"
+                             % (fname, node.lineno, cls, ", ".join(bases) or "object", got,
+                                " with class keywords/decorators" if node.keywords or node.decorator_list else ""))
+    return node
+
+
+def _int_expr(e, env):
+    """value of an integer expression made of literals, names already read in the same scope and `<< | & + * **`
+    (`FLOAT = 1 << 10`, `ALL = A | B`), else None"""
+    if isinstance(e, ast.Constant) and isinstance(e.value, int) and not isinstance(e.value, bool):
+        return e.value
+    if isinstance(e, ast.Name) and isinstance(env.get(e.id), int) and not isinstance(env.get(e.id), bool):
+        return env[e.id]
+    if isinstance(e, ast.BinOp):
+        a, b = _int_expr(e.left, env), _int_expr(e.right, env)
+        if a is None or b is None or a < 0 or b < 0:
+            return None
+        if isinstance(e.op, ast.LShift) and b <= 64:
+            return a << b
+        if isinstance(e.op, ast.Pow) and b <= 64 and a <= 64:
+            return a ** b
+        if isinstance(e.op, (ast.BitOr, ast.BitAnd, ast.Add, ast.Mult)):
+            return {ast.BitOr: a | b, ast.BitAnd: a & b, ast.Add: a + b, ast.Mult: a * b}[type(e.op)]
+    return None
+
+
+def _literal_bindings(body, fname, what, kinds):
+    """name -> literal for the names bound in this scope by one plain `NAME = <literal>` and by nothing else; for integers
+    the right-hand side may also be a constant integer expression over names read before (see _int_expr)"""
+    out, seen = {}, {}
+    for st in body:
+        if (isinstance(st, ast.Assign) and len(st.targets) == 1 and isinstance(st.targets[0], ast.Name)):
+            seen.setdefault(st.targets[0].id, []).append(st)
+    for st in body:
+        if not (isinstance(st, ast.Assign) and len(st.targets) == 1 and isinstance(st.targets[0], ast.Name)):
+            continue
+        name = st.targets[0].id
+        if len(seen[name]) != 1 or _other_bindings(body, name, st):
+            continue
+        if (isinstance(st.value, ast.Constant) and isinstance(st.value.value, kinds)
+                and (bool in kinds or not isinstance(st.value.value, bool))):
+            out[name] = st.value.value
+        elif int in kinds and not isinstance(st.value, ast.Constant):
+            v = _int_expr(st.value, out)
+            if v is not None:
+                out[name] = v
+    return out
+
+
+def _attr_stores(tree, names):
+    """attribute names in `names` that are assigned / deleted through an attribute (`X.NAME = ...`), or named in a
+    string handed to setattr/delattr, anywhere in the module"""
+    hit = set()
+    for n in ast.walk(tree):
+        if isinstance(n, ast.Attribute) and n.attr in names and isinstance(n.ctx, (ast.Store, ast.Del)):
+            hit.add(n.attr)
+        if (isinstance(n, ast.Call) and isinstance(n.func, ast.Name) and n.func.id in ("setattr", "delattr")
+                and len(n.args) >= 2 and isinstance(n.args[1], ast.Constant) and n.args[1].value in names):
+            hit.add(n.args[1].value)
+    return hit
 
 
 def class_int_consts(tree, cls, fname):
-    out = {}
-    for node in tree.body:
-        if isinstance(node, ast.ClassDef) and node.name == cls:
-            for n in node.body:
-                if (isinstance(n, ast.Assign) and len(n.targets) == 1 and isinstance(n.targets[0], ast.Name)
-                        and isinstance(n.value, ast.Constant) and isinstance(n.value.value, int)
-                        and not isinstance(n.value.value, bool)):
-                    out[n.targets[0].id] = n.value.value
-            return out
-    raise Untranslatable("%s: class %s not found" % (fname, cls))
+    """`NAME = <int>` class attributes.  Strict: a name is reported only if that assignment is its single binding in
+    the class body and no `X.NAME = ...` occurs in the module (a later `NAME = NAME << 1`, `NAME |= 2`, a conditional
+    redefinition or a patch after the class statement would make the literal a half-read); otherwise the name is
+    left out, and whoever needs it raises `constant not found`."""
+    node = find_class(tree, cls, fname)
+    out = _literal_bindings(node.body, fname, cls, (int,))
+    for name in _attr_stores(tree, set(out)):
+        del out[name]
+    return out
+
+
+def class_literals(tree, cls, fname):
+    """like class_int_consts for `NAME = <str|int|float|bool|None literal>`"""
+    node = find_class(tree, cls, fname)
+    out = _literal_bindings(node.body, fname, cls, (str, int, float, bool, type(None)))
+    for name in _attr_stores(tree, set(out)):
+        del out[name]
+    return out
 
 
 def module_int_consts(tree):
-    out = {}
-    for n in tree.body:
-        if (isinstance(n, ast.Assign) and len(n.targets) == 1 and isinstance(n.targets[0], ast.Name)
-                and isinstance(n.value, ast.Constant) and isinstance(n.value.value, int)
-                and not isinstance(n.value.value, bool)):
-            out[n.targets[0].id] = n.value.value
+    out = _literal_bindings(tree.body, "", "module", (int,))
+    for n in ast.walk(tree):
+        if isinstance(n, ast.Global):
+            for name in n.names:
+                out.pop(name, None)
     return out
+
+
+def module_literals(tree):
+    """module-level `NAME = <str|int|float|bool|None literal>` bound exactly once (see class_int_consts)"""
+    out = _literal_bindings(tree.body, "", "module", (str, int, float, bool, type(None)))
+    for n in ast.walk(tree):
+        if isinstance(n, ast.Global):
+            for name in n.names:
+                out.pop(name, None)
+    return out
+
+
+def imported_as(tree, name, modules, fname):
+    """`name` is bound at module level by exactly one `from <one of modules> import name` (no alias) and nothing else"""
+    imps = [(st, a) for st in tree.body if isinstance(st, ast.ImportFrom) for a in st.names
+            if (a.asname or a.name) == name]
+    ok = (len(imps) == 1 and imps[0][1].asname is None
+          and ((imps[0][0].module or "") in modules or ("." * imps[0][0].level + (imps[0][0].module or "")) in modules))
+    if ok:
+        rest = [st for st in tree.body if st is not imps[0][0]]
+        others = [a for a in imps[0][0].names if a is not imps[0][1] and (a.asname or a.name) == name]
+        ok = not others and not _other_bindings(rest, name, None)
+    if not ok:
+        raise Untranslatable("%s: `%s` is not simply imported from %s" % (fname, name, " / ".join(modules)))
+
+
+def plain_import(tree, module, fname):
+    """`import <module>` (no alias) is the only binding of that name at module level"""
+    imps = [st for st in tree.body if isinstance(st, ast.Import) and any(al.name == module and al.asname is None for al in st.names)]
+    if not imps or _other_bindings([st for st in tree.body if st not in imps], module, None):
+        raise Untranslatable("%s: `%s` is not simply the imported module" % (fname, module))
+
+
+def class_slot_is_none(tree, cls, name, fname):
+    """the class attribute `name` starts as None and is bound by nothing else in the class body"""
+    node = find_class(tree, cls, fname)
+    d = _literal_bindings(node.body, fname, cls, (type(None),))
+    if name not in d:
+        raise Untranslatable("%s: %s.%s does not simply start as None" % (fname, cls, name))
+
+
+def local_bindings(fn):
+    """names bound inside a function: parameters and every Store/Del/import/def/handler name at any depth"""
+    out = set()
+    a = fn.args
+    for arg in a.posonlyargs + a.args + a.kwonlyargs + [x for x in (a.vararg, a.kwarg) if x is not None]:
+        out.add(arg.arg)
+    for n in ast.walk(fn):
+        if isinstance(n, ast.Name) and isinstance(n.ctx, (ast.Store, ast.Del)):
+            out.add(n.id)
+        elif isinstance(n, (ast.FunctionDef, ast.AsyncFunctionDef, ast.ClassDef)) and n is not fn:
+            out.add(n.name)
+        elif isinstance(n, ast.alias):
+            out.add(n.asname or n.name.split(".")[0])
+        elif isinstance(n, ast.ExceptHandler) and n.name:
+            out.add(n.name)
+        elif isinstance(n, (ast.Global, ast.Nonlocal)):
+            out.update(n.names)
+        elif isinstance(n, ast.arg):
+            out.add(n.arg)
+    return out
+
+
+def inline_literals(fn, tree, cls=None):
+    """A copy of the function in which every read of a module-level literal constant (`_LIMIT = 255` bound exactly once,
+    not shadowed inside the function) - and, with `cls`, every `self.NAME` / `cls.NAME` / `<cls>.NAME` read of such a
+    class-level literal - is replaced by the literal: a reader then sees `min(x, 255)` whether or not the number was
+    given a name (one level of read-through for extracted constants)."""
+    import copy
+    mod = module_literals(tree)
+    shadow = local_bindings(fn)
+    cl = {}
+    if cls is not None:
+        cnode = [n for n in tree.body if isinstance(n, ast.ClassDef) and n.name == cls]
+        if len(cnode) == 1:
+            cl = _literal_bindings(cnode[0].body, "", cls, (str, int, float, bool, type(None)))
+            for name in _attr_stores(tree, set(cl)):
+                del cl[name]
+
+    class T(ast.NodeTransformer):
+        def visit_Name(self, n):
+            if isinstance(n.ctx, ast.Load) and n.id in mod and n.id not in shadow:
+                return ast.copy_location(ast.Constant(value=mod[n.id]), n)
+            return n
+
+        def visit_Attribute(self, n):
+            if (isinstance(n.ctx, ast.Load) and isinstance(n.value, ast.Name) and n.attr in cl
+                    and (n.value.id in ("self", "cls") and n.value.id not in (shadow - {fn.args.args[0].arg if fn.args.args else ""})
+                         or n.value.id == cls and cls not in shadow)):
+                return ast.copy_location(ast.Constant(value=cl[n.attr]), n)
+            return self.generic_visit(n)
+
+    return ast.fix_missing_locations(T().visit(copy.deepcopy(fn)))
+
+
+def mentions(node, names=(), attrs=(), strings=True):
+    """does the (list of) node(s) mention one of the names (as a variable) or attributes (on any object; also as a
+    string literal, for getattr/setattr) - the test for `this statement cannot concern the objects read here`"""
+    nodes = node if isinstance(node, (list, tuple)) else [node]
+    for top in nodes:
+        for n in ast.walk(top):
+            if isinstance(n, ast.Name) and n.id in names:
+                return True
+            if isinstance(n, ast.arg) and n.arg in names:
+                return True
+            if isinstance(n, ast.Attribute) and n.attr in attrs:
+                return True
+            if strings and isinstance(n, ast.Constant) and isinstance(n.value, str) and n.value in attrs:
+                return True
+            if isinstance(n, (ast.Global, ast.Nonlocal)) and set(n.names) & set(names):
+                return True
+            if isinstance(n, ast.Call) and isinstance(n.func, ast.Name) and n.func.id in ("locals", "vars", "globals", "eval", "exec"):
+                return True
+    return False
+
+
+def exits(node):
+    """does the (list of) statement(s) contain a return / raise / break / continue / yield at any depth (not inside a
+    nested function)?  Statements skipped as irrelevant must not: they could leave before the part that is read."""
+    nodes = node if isinstance(node, (list, tuple)) else [node]
+
+    def walk(n):
+        if isinstance(n, (ast.Return, ast.Raise, ast.Break, ast.Continue, ast.Yield, ast.YieldFrom)):
+            return True
+        if isinstance(n, (ast.FunctionDef, ast.AsyncFunctionDef, ast.Lambda, ast.ClassDef)):
+            return False
+        return any(walk(c) for c in ast.iter_child_nodes(n))
+    return any(walk(n) for n in nodes)
+
+
+class _NoMatch(Exception):
+    pass
+
+
+class Template(object):
+    """Strict structural match of statements against a template written as Python source.
+
+      HOLE_x     (a name in expression position) matches any expression; the node is bound to "x"
+      CONST_x    matches a literal (also a negated number); the node is bound to "x"
+      V_x        (any identifier: variable, parameter, `except ... as` name) matches any identifier, the same one
+                 everywhere; different V_ placeholders are different identifiers, none equal to a name the template spells out
+      STMTS_x    (an expression statement) matches zero or more statements that satisfy `preds["x"]` (default: none
+                 allowed); they are bound to "x" as a list
+
+    Everything else must be equal node for node (line numbers, docstrings and type comments aside).  `match` returns the
+    bindings or raises Untranslatable naming the first statement that is not what the template expects."""
+
+    def __init__(self, source, preds=None):
+        import textwrap
+        self.stmts = strip_doc(ast.parse(textwrap.dedent(source)).body)
+        self.preds = preds or {}
+        self.literal_names = set()
+        for st in self.stmts:
+            for n in ast.walk(st):
+                if isinstance(n, ast.Name) and not n.id.startswith(("HOLE_", "CONST_", "V_", "STMTS_")):
+                    self.literal_names.add(n.id)
+                if isinstance(n, ast.arg) and not n.arg.startswith("V_"):
+                    self.literal_names.add(n.arg)
+
+    def match(self, stmts, fname, what):
+        self.far = (-1, None, None)
+        try:
+            return self._seq(self.stmts, strip_doc(stmts), {})
+        except _NoMatch:
+            line, exp, got = self.far
+            raise Untranslatable("%s:%s: %s: expected `%s`, found `%s`"
+                                 % (fname, line if line >= 0 else "?", what, exp, got))
+
+    def try_match(self, stmts):
+        self.far = (-1, None, None)
+        try:
+            return self._seq(self.stmts, strip_doc(stmts), {})
+        except _NoMatch:
+            return None
+
+    # -- internals
+    def _note(self, t, a):
+        line = getattr(a, "lineno", None)
+        if line is None:
+            return
+        if line > self.far[0]:
+            def show(x):
+                if x is None:
+                    return "<nothing>"
+                try:
+                    return ast.unparse(x).split("\n")[0][:100]
+                except Exception:  # noqa
+                    return type(x).__name__
+            self.far = (line, show(t), show(a))
+
+    def _wild(self, st):
+        if isinstance(st, ast.Expr) and isinstance(st.value, ast.Name) and st.value.id.startswith("STMTS_"):
+            return st.value.id[6:]
+        return None
+
+    def _seq(self, ts, as_, b):
+        if not ts:
+            if as_:
+                self._note(None, as_[0])
+                raise _NoMatch()
+            return b
+        w = self._wild(ts[0])
+        if w is not None:
+            pred = self.preds.get(w, lambda st: False)
+            k = 0
+            while True:
+                try:
+                    b2 = dict(b)
+                    b2[w] = list(as_[:k])
+                    return self._seq(ts[1:], as_[k:], b2)
+                except _NoMatch:
+                    pass
+                if k < len(as_) and pred(as_[k]):
+                    k += 1
+                    continue
+                raise _NoMatch()
+        if not as_:
+            self.far = max(self.far, (10 ** 9, ast.unparse(ts[0]).split("\n")[0][:100], "<end of block>"), key=lambda x: x[0])
+            raise _NoMatch()
+        b2 = dict(b)
+        try:
+            self._node(ts[0], as_[0], b2)
+        except _NoMatch:
+            self._note(ts[0], as_[0])
+            raise
+        return self._seq(ts[1:], as_[1:], b2)
+
+    def _ident(self, t, a, b):
+        if isinstance(t, str) and t.startswith("V_"):
+            if not isinstance(a, str):
+                raise _NoMatch()
+            key = "V:" + t[2:]
+            if key in b:
+                if b[key] != a:
+                    raise _NoMatch()
+            else:
+                if a in self.literal_names or any(k.startswith("V:") and v == a for k, v in b.items()):
+                    raise _NoMatch()
+                b[key] = a
+            return True
+        return False
+
+    def _node(self, t, a, b):
+        if isinstance(t, ast.Name) and t.id.startswith("HOLE_"):
+            if not isinstance(a, ast.expr):
+                raise _NoMatch()
+            key = t.id[5:]
+            if key in b and ast.dump(b[key]) != ast.dump(a):
+                raise _NoMatch()
+            b[key] = a
+            return
+        if isinstance(t, ast.Name) and t.id.startswith("CONST_"):
+            ok = isinstance(a, ast.Constant) or (isinstance(a, ast.UnaryOp) and isinstance(a.op, ast.USub)
+                                                 and isinstance(a.operand, ast.Constant)
+                                                 and isinstance(a.operand.value, (int, float))
+                                                 and not isinstance(a.operand.value, bool))
+            if not ok:
+                raise _NoMatch()
+            key = t.id[6:]
+            if key in b and ast.dump(b[key]) != ast.dump(a):
+                raise _NoMatch()
+            b[key] = a
+            return
+        if type(t) is not type(a):
+            raise _NoMatch()
+        for field in t._fields:
+            if field in ("ctx", "type_comment", "kind", "type_ignores"):
+                continue
+            tv, av = getattr(t, field, None), getattr(a, field, None)
+            self._value(tv, av, b, field)
+
+    def _value(self, tv, av, b, field):
+        if isinstance(tv, list):
+            if not isinstance(av, list):
+                raise _NoMatch()
+            if field in ("body", "orelse", "finalbody") and (not tv or isinstance(tv[0], ast.stmt)) \
+                    and (not av or isinstance(av[0], ast.stmt)):
+                b2 = self._seq(strip_doc(tv), strip_doc(av), b)
+                b.update(b2)
+                return
+            if len(tv) != len(av):
+                raise _NoMatch()
+            for x, y in zip(tv, av):
+                self._value(x, y, b, field)
+            return
+        if isinstance(tv, ast.AST):
+            if not isinstance(av, ast.AST):
+                raise _NoMatch()
+            self._node(tv, av, b)
+            return
+        if self._ident(tv, av, b):
+            return
+        if tv != av or type(tv) is not type(av):
+            raise _NoMatch()
+
+
+def const_value(node):
+    """value of a node bound by CONST_x"""
+    if isinstance(node, ast.UnaryOp):
+        return -node.operand.value
+    return node.value
